@@ -107,6 +107,20 @@ def rule_fpdet(ctx):
                         problems["set-order"] = (n, "iterates a set in hash order")
                 if d in ("str", "repr", "format") and n.args:
                     problems["format"] = (n, f"{d}() formatting of values")
+            # any set/frozenset built inside a fingerprint function must be consumed by
+            # an order-normalising function before it can reach the digest
+            is_set = isinstance(n, (ast.Set, ast.SetComp)) or (
+                isinstance(n, ast.Call) and dotted(n.func) in ("set", "frozenset"))
+            if is_set:
+                par = f.module.parents.get(n)
+                wrapped = isinstance(par, ast.Call) and n in par.args and \
+                    (dotted(par.func) or "") in ("sorted", "sortedtuple", "len", "min", "max",
+                                                 "sum", "any", "all", "bool")
+                membership = isinstance(par, ast.Compare)
+                if not wrapped and not membership:
+                    problems["set-order"] = (n, "a set/frozenset (iteration and pickle order "
+                                             "follow the per-process string hash) is used in the "
+                                             "fingerprint without sorting")
         key = ctx.key(f, "C14-FPDET", "digest")
         if digest is None:
             r.violation(key, f.loc, "fingerprint is not a hashlib digest")
